@@ -22,9 +22,13 @@ ALLOWED_AXIOMS = {
 
 
 class Lock:
+    """exclusive for builds; shared for evaluations that only read the compiled files"""
+    def __init__(self, shared=False):
+        self.shared = shared
+
     def __enter__(self):
-        self.f = open(os.path.join(paths.CACHE, "coq.lock"), "w")
-        fcntl.flock(self.f, fcntl.LOCK_EX)
+        self.f = open(os.path.join(paths.CACHE, "coq.lock"), "a")
+        fcntl.flock(self.f, fcntl.LOCK_SH if self.shared else fcntl.LOCK_EX)
         return self
 
     def __exit__(self, *a):
@@ -114,7 +118,7 @@ def assumptions(prop_file_rel):
 
 
 def _eval_shard(args):
-    idx, header, body, workdir = args
+    idx, header, body, workdir = args[:4]
     path = os.path.join(workdir, f"cases_{idx}.v")
     with open(path, "w") as f:
         f.write(header)
@@ -131,17 +135,19 @@ def classify(corr_module, coq_cases, shard=400, extra_require="", tagged=False):
     plus a list of shard errors."""
     header = (f"From Coq Require Import List ZArith NArith QArith String.\nImport ListNotations.\n"
               f"From Verif Require Import Common.Corr.\nRequire Import {corr_module}.\n{extra_require}\n"
-              f"Local Open Scope N_scope.\n")
+              f"Local Open Scope N_scope.\nSet Printing Width 1000000.\n")
     jobs = []
     workdir = tempfile.mkdtemp(prefix="verif-cases-", dir=paths.CACHE)
     for k in range(0, len(coq_cases), shard):
         chunk = coq_cases[k:k + shard]
         body = ("Definition cs : list (case * out) := [\n  " + ";\n  ".join(chunk) + "\n].\n"
-                + ("Eval vm_compute in (VERIF_BEGIN, Corr.run_tagged spec_ok model out_eqb tag cs, VERIF_END).\n" if tagged else
-                   "Eval vm_compute in (VERIF_BEGIN, Corr.run spec_ok model out_eqb cs, VERIF_END).\n"))
-        jobs.append((k // shard, header, body, workdir))
+                + ("Definition rs := Corr.run_tagged spec_ok model out_eqb tag cs.\n" if tagged else
+                   "Definition rs := Corr.run spec_ok model out_eqb cs.\n")
+                + "Eval vm_compute in (VERIF_BEGIN, rs, VERIF_END).\n"
+                + "Eval vm_compute in (VERIF_COUNT, N.of_nat (List.length rs), N.of_nat (List.length cs)).\n")
+        jobs.append((k // shard, header, body, workdir, chunk))
     codes, errors = {}, []
-    with ThreadPoolExecutor(max_workers=int(os.environ.get("VERIF_COQ_JOBS", "4"))) as ex:
+    with Lock(shared=True), ThreadPoolExecutor(max_workers=int(os.environ.get("VERIF_COQ_JOBS", "4"))) as ex:
         for idx, rc, out, err in ex.map(_eval_shard, jobs):
             if rc != 0:
                 errors.append((idx, (out + err)[-2000:]))
@@ -150,7 +156,15 @@ def classify(corr_module, coq_cases, shard=400, extra_require="", tagged=False):
             if not m:
                 errors.append((idx, "unparsable: " + out[-500:]))
                 continue
-            for i, c in re.findall(r"\((\d+)(?:%N)?,\s*(\d+)(?:%N)?\)", m.group(1)):
+            # tolerant of any line wrapping Coq's printer may choose
+            found = re.findall(r"\(\s*(\d+)(?:%N)?\s*,\s*(\d+)(?:%N)?\s*\)", m.group(1))
+            # cross-check against the counts Coq computed itself: nothing may be lost in parsing
+            mc = re.search(r"VERIF_COUNT,\s*(\d+)(?:%N)?\s*,\s*(\d+)(?:%N)?", out)
+            if not mc or int(mc.group(1)) != len(found) or int(mc.group(2)) != len(jobs[idx][4]):
+                errors.append((idx, f"result count mismatch: parsed {len(found)} entries, Coq says "
+                                    f"{mc.groups() if mc else None}, sent {len(jobs[idx][4])} cases"))
+                continue
+            for i, c in found:
                 codes[idx * shard + int(i)] = int(c)
     try:
         import shutil
